@@ -13,9 +13,12 @@ Definition render_member (m : smember) : option member :=
   Some (mkMember (sm_name m) (ty_name (sm_ty m))).
 Definition render_def (d : structdef) : option gtype := Some (map render_member d).
 
-(* the Go map holds exactly the rendered definitions (whatever the order of its entries) *)
+(* the Go map holds the rendered definition of every struct type of the document, and declares no
+   type under the name of an atomic type (such a declaration would shadow the atomic type).  It may
+   hold any other entries: nothing reachable refers to them (wf_types closes [sts] under references) *)
 Definition repr_types (gts : typeset) (sts : types) : Prop :=
-  forall n, tlookup n gts = match assoc n sts with Some d => Some (render_def d) | None => None end.
+  (forall n def, assoc n sts = Some def -> tlookup n gts = Some (render_def def)) /\
+  (forall a, wf_atomic a = true -> tlookup (atomic_name a) gts = None).
 
 Section Values.
   Variable big_other : bytes -> option Z.
@@ -77,3 +80,30 @@ Fixpoint dims_fit (t : mty) : Prop :=
   end.
 Definition types_dims_fit (sts : types) : Prop :=
   Forall (fun nd : bytes * structdef => Forall (fun m => dims_fit (sm_ty m)) (snd nd)) sts.
+
+(* ---------- relations between Go-level documents used by the invariance theorems ---------- *)
+From Coq Require Import Permutation.
+
+(* the same JSON value with the keys of its objects in a different order, at any depth.  A Go map has
+   no order; the association lists standing for maps have unique keys *)
+Inductive gperm : gval -> gval -> Prop :=
+| GP_refl g : gperm g g
+| GP_slice l l' : Forall2 gperm l l' -> gperm (GSlice l) (GSlice l')
+| GP_map m m1 m' :
+    NoDup (keys m) -> Permutation m m1 ->
+    Forall2 (fun a b : bytes * gval => fst a = fst b /\ gperm (snd a) (snd b)) m1 m' ->
+    gperm (GMap m) (GMap m').
+
+(* the same value of type t up to fields that are no members: struct values agree (recursively) on
+   the members of their struct type and are unconstrained on every other key *)
+Inductive same_members (sts : types) : mty -> gval -> gval -> Prop :=
+| SM_same t g : same_members sts t g g
+| SM_struct n def m m' :
+    assoc n sts = Some def ->
+    Forall (fun sm => same_members sts (sm_ty sm) (glookup (sm_name sm) m) (glookup (sm_name sm) m')) def ->
+    same_members sts (Struct n) (GMap m) (GMap m')
+| SM_arr t k l l' : Forall2 (same_members sts t) l l' -> same_members sts (Arr t k) (GSlice l) (GSlice l').
+
+Definition types_of (td : typed_data) : typeset := match td_types td with Some t => t | None => [] end.
+Definition domain_of (td : typed_data) : gval := GMap (match td_domain td with Some m => m | None => [] end).
+Definition message_of (td : typed_data) : gval := match td_message td with Some m => GMap m | None => GNil end.
